@@ -1,7 +1,364 @@
 import Driver.Util
+import Model.LocalFS
+import Generated.Facts
+/-! Driver for engine `localfs` (C13): trace acceptor + crash-state computation.
+
+The harness runs the real `LocalBackend` under strace and prints, per world (fresh directory tree):
+
+  world <name>
+  dir <path>                          backend directory (world-relative, components in hex, `.` = world)
+  prep mkdir <path> | prep file <path> <cid>      pre-made by the harness, synced
+  def <cid> hex <hex> | take <cid> <n> | flip <cid> <i> | app <cid> <hex>
+  op upload <keyhex> <cid> <imm> | op fetch <keyhex> | op discard <keyhex>
+  s <syscall …>                       observed system calls of that call, normalised
+  ret ok [<cid>] | invalidKey | mismatch | error | hang | killed
+  endworld
+
+For every call the model's `uploadTrace`/`fetchTrace`/`discardTrace` (instantiated with the
+`Program` the regenerated facts select) is computed in the current model state and must equal the
+observed system calls one by one (`killed`: be a prefix); the model state then advances with `run`.
+For every accepted upload the driver computes the crash states: every prefix of the trace × every
+subset of pending directory-entry changes × a few choices of junk for un-synced files, and checks
+"old or new" with the very `crash` / `FS.object` the theorems are about (from quiescent pre-states a
+failure is a MISMATCH: it would contradict `C13_atomic_durable`; from pre-states left by a killed
+process it is tallied as `durability-lost-after-kill`, candidate finding F4). -/
 namespace Driver.Localfs
-/-- stub: engine not implemented yet -/
+open LocalFS
+
+/-- The model instance the current source selects (buffer expression of `compareFile`). -/
+def currentProgram : Option Program := (BufExpr.parse Generated.c13_compare_buf).map fun e => { buf := e }
+
+/-! ### Hex and paths (stack-safe for multi-megabyte contents) -/
+
+def hexNib (c : UInt8) : Nat :=
+  if 48 ≤ c ∧ c ≤ 57 then c.toNat - 48 else if 97 ≤ c ∧ c ≤ 102 then c.toNat - 87 else 0
+
+def unhex (s : String) : Bytes :=
+  if s == "-" then [] else
+    let cs := s.toUTF8
+    let n := cs.size / 2
+    let rec go (i : Nat) (acc : List UInt8) : List UInt8 :=
+      match i with
+      | 0 => acc
+      | k + 1 => go k (UInt8.ofNat (16 * hexNib cs[2 * k]! + hexNib cs[2 * k + 1]!) :: acc)
+    go n []
+
+def parsePath (s : String) : Option Path :=
+  if s == "." then some []
+  else if s == "ABS" then none
+  else some ((s.splitOn "/").map unhex)
+
+def showPath (p : Path) : String :=
+  if p.isEmpty then "." else "/".intercalate (p.map fun n => if n.isEmpty then "-" else Bytes.toHex n)
+
+def octal (n : Nat) : String := String.ofList (Nat.toDigits 8 n)
+
+def b01 (b : Bool) : String := if b then "1" else "0"
+
+/-- The harness's rendering of a system call. -/
+def render : Sys → List String
+  | .stat p f => ["stat", showPath p, b01 f]
+  | .openDir p => ["opendir", showPath p]
+  | .mkdir p => ["mkdir", showPath p, octal modeDir]
+  | .fsyncDir p => ["fsyncdir", showPath p]
+  | .closeDir p => ["closedir", showPath p]
+  | .openRd p ok => ["openrd", showPath p, b01 ok]
+  | .read p c n => ["read", showPath p, toString c, toString n]
+  | .readDir p => ["readdir", showPath p]
+  | .closeRd p => ["closerd", showPath p]
+  | .creat p _ => ["creat", showPath p, "600"]
+  | .fchmod p _ m => ["fchmod", showPath p, octal m]
+  | .write p _ d => ["write", showPath p, toString d.length]
+  | .fsync p _ => ["fsync", showPath p]
+  | .close p => ["close", showPath p]
+  | .lstat p f => ["lstat", showPath p, b01 f]
+  | .rename a b _ ok => ["rename", showPath a, showPath b, b01 ok]
+  | .unlink p => ["unlink", showPath p]
+  | .unlinkFail p => ["unlinkfail", showPath p]
+  | .rmdir p ok => ["rmdir", showPath p, b01 ok]
+  | .setImmutable p _ on => ["setimm", showPath p, b01 on, "1"]
+  | .setFlagsDir p => ["setimm", showPath p, "0", "1"]
+
+/-- Outcomes the model cannot know are adopted from the observation: the best-effort ioctl may
+fail (`EOPNOTSUPP`, `EPERM`), `rmdir` fails on a non-empty directory. -/
+def adopt (e : Sys) (obs : List String) : Option Sys :=
+  if render e == obs then some e else
+  match e, obs with
+  | .setImmutable p _ on, ["setimm", q, o, "0"] => if showPath p == q && b01 on == o then some (.setFlagsDir p) else none
+  | .setFlagsDir p, ["setimm", q, "0", "0"] => if showPath p == q then some (.setFlagsDir p) else none
+  | .rmdir p true, ["rmdir", q, "0"] => if showPath p == q then some (.rmdir p false) else none
+  | _, _ => none
+
+/-! ### Harness-side preparation (durable, synced) -/
+
+def mkdirDurable (s : FS) (p : Path) : FS :=
+  match s.dirs (parentOf p) with
+  | none => s
+  | some d =>
+    let s1 := s.setDir (parentOf p) { d with durable := upd d.durable (baseOf p) (some .dir) }
+    match s1.dirs p with
+    | some _ => s1
+    | none => s1.setDir p Dir.empty
+
+def prefixes (p : Path) : List Path := (List.range (p.length + 1)).map fun k => p.take k
+
+def mkdirAllDurable (s : FS) (p : Path) : FS :=
+  (prefixes p).foldl (fun s q => if q.isEmpty then s else match s.lookup q with | some .dir => s | _ => mkdirDurable s q) s
+
+def fileDurable (s : FS) (p : Path) (data : Bytes) : FS :=
+  let s := mkdirAllDurable s (parentOf p)
+  match s.dirs (parentOf p) with
+  | none => s
+  | some d =>
+    let i := s.next
+    { (s.setFile i { data := data, synced := true, mode := 0o644, immutable := false }).setDir (parentOf p)
+        { d with durable := upd d.durable (baseOf p) (some (.file i)) } with next := i + 1 }
+
+def emptyWorld : FS := { files := fun _ => none, dirs := fun p => if p = [] then some Dir.empty else none, next := 1 }
+
+/-! ### Crash-state enumeration -/
+
+def allMasks : Nat → List (List Bool)
+  | 0 => [[]]
+  | n + 1 => (allMasks n).flatMap fun m => [true :: m, false :: m]
+
+/-- All assignments of masks to the directories with pending changes (`known` lists the directories). -/
+def keepChoices (s : FS) (known : List Path) (full : Bool) : List (Path → List Bool) :=
+  known.foldl (fun acc p =>
+    match s.dirs p with
+    | some d =>
+      if d.pending.isEmpty then acc
+      else
+        let ms := if full && d.pending.length ≤ 6 then allMasks d.pending.length
+                  else [List.replicate d.pending.length true, List.replicate d.pending.length false]
+        acc.flatMap fun k => ms.map fun m => fun q => if q = p then m else k q
+    | none => acc) [fun _ => []]
+
+def quiescentB (s : FS) (known : List Path) : Bool :=
+  known.all (fun p => match s.dirs p with | some d => d.pending.isEmpty | none => true) &&
+  (List.range s.next).all (fun i => match s.files i with | some f => f.synced | none => true)
+
+/-- System calls that change the model state (the others leave every crash state as it was). -/
+def changes : Sys → Bool
+  | .mkdir _ | .fsyncDir _ | .creat _ _ | .fchmod _ _ _ | .write _ _ _ | .fsync _ _ | .rename _ _ _ true
+  | .unlink _ | .rmdir _ true | .setImmutable _ _ _ => true
+  | _ => false
+
+structure CrashReport where
+  states : Nat := 0
+  bad : Option String := none
+  /-- the call returned ok and some crash of the FINAL state does not have the new object -/
+  badFinal : Bool := false
+
+/-- Every prefix × persisted subset × junk: the recovered object is the old or the new one; after the
+whole trace of a call that returned ok, it is the new one. -/
+def crashCheck (pre : FS) (known : List Path) (tr : List Sys) (path : Path) (data : Bytes) (resOk : Bool) : CrashReport :=
+  let old := pre.object path
+  let full := data.length ≤ 70000
+  let junks : List (Nat → Bytes) :=
+    if full then [fun _ => [], fun _ => [0x58], fun _ => data.take (data.length / 2) ++ [0]] else [fun _ => [0x58]]
+  let known := known ++ tr.filterMap fun e => match e with | .mkdir p => some p | _ => none
+  let checkState (s : FS) (k : Nat) (final : Bool) (rep : CrashReport) : CrashReport :=
+    (keepChoices s known full).foldl (fun rep keep =>
+      junks.foldl (fun rep junk =>
+        let obj := (crash { keep := keep, junk := junk } s).object path
+        let good := if final && resOk then obj == some data else (obj == old || obj == some data)
+        { states := rep.states + 1, badFinal := rep.badFinal || (final && resOk && !good),
+          bad := if good || rep.bad.isSome then rep.bad
+                 else some s!"after {k} of {tr.length} system calls (masks {known.map keep}): recovered object has {(obj.map (·.length))} bytes; old {(old.map (·.length))}, new {data.length}" }) rep) rep
+  let rec go (s : FS) (k : Nat) (rest : List Sys) (rep : CrashReport) : CrashReport :=
+    match rest with
+    | [] => checkState s k true rep
+    | e :: rest' =>
+      -- a state is checked when the next system call is about to change it (and at the end)
+      go (step s e) (k + 1) rest' (if k == 0 || changes e then checkState s k false rep else rep)
+  go pre 0 tr {}
+
+/-! ### The acceptor -/
+
+structure Op where
+  kind : String
+  key : Bytes
+  data : Bytes := []
+  imm : Bool := false
+  line : Nat
+  obs : Array (List String) := #[]
+
+structure St where
+  t : Driver.Tally := {}
+  fs : FS := emptyWorld
+  dir : Path := []
+  known : List Path := [[]]
+  world : String := ""
+  contents : List (String × Bytes) := []
+  op : Option Op := none
+  P : Program := program
+  crashStates : Nat := 0
+
+def St.bad (st : St) (n : Nat) (msg : String) : IO St := do
+  IO.println s!"MISMATCH {n} {st.world}: {msg}"
+  return { st with t := { st.t with mismatches := st.t.mismatches + 1 } }
+
+def St.good (st : St) (branch : String) : St :=
+  { st with t := { st.t.bump branch with ok := st.t.ok + 1 } }
+
+def St.content (st : St) (id : String) : Option Bytes := (st.contents.find? (·.1 == id)).map (·.2)
+
+def showResult : Result → String
+  | .ok => "ok" | .invalidKey => "invalidKey" | .mismatch => "mismatch" | .error => "error" | .hang => "hang"
+
+/-- The random suffix `os.CreateTemp` chose, read off the observed `creat`. -/
+def observedRnd (obs : Array (List String)) (base : Name) : Name :=
+  match obs.toList.find? (fun w => w.head? == some "creat") with
+  | some (_ :: p :: _) =>
+    match parsePath p with
+    | some q =>
+      let name := baseOf q
+      let pre := dot ++ base
+      if pre.isPrefixOf name then name.drop pre.length else []
+    | none => []
+  | _ => []
+
+/-- Match the model trace against the observation; returns the (adopted) accepted prefix or the
+index and description of the first difference. -/
+def matchTrace (tr : List Sys) (obs : List (List String)) (allowPrefix : Bool) :
+    Except String (List Sys) :=
+  let rec go (tr : List Sys) (obs : List (List String)) (acc : List Sys) (i : Nat) : Except String (List Sys) :=
+    match tr, obs with
+    | [], [] => .ok acc.reverse
+    | e :: _, [] => if allowPrefix then .ok acc.reverse
+               else .error s!"system call {i}: model expects [{" ".intercalate (render e)}], the call issued nothing more"
+    | [], o :: _ => .error s!"system call {i}: observed [{" ".intercalate o}], the model's trace has ended"
+    | e :: tr', o :: obs' =>
+      match adopt e o with
+      | some e' => go tr' obs' (e' :: acc) (i + 1)
+      | none => .error s!"system call {i}: observed [{" ".intercalate o}], model expects [{" ".intercalate (render e)}]"
+  go tr obs [] 0
+
+def sizeClass (n : Nat) : String :=
+  if n = 0 then "0" else if n < 16384 then "<16384" else if n = 16384 then "16384" else if n ≤ 70000 then ">16384" else "big"
+
+def finishOp (st : St) (n : Nat) (o : Op) (ret : List String) : IO St := do
+  let st := { st with op := none }
+  let retKind := ret.headD "?"
+  let obs := o.obs.toList
+  match o.kind with
+  | "upload" =>
+    let comps := localize o.key
+    let base := match comps with | some c => baseOf (st.dir ++ c) | none => []
+    let rnd := observedRnd o.obs base
+    let (tr, res) := uploadTrace st.P st.dir o.key o.data { immutable := o.imm } rnd st.fs
+    let killed := retKind == "killed"
+    match matchTrace tr obs killed with
+    | .error msg => st.bad o.line s!"upload key={Bytes.toHexP o.key} imm={o.imm} len={o.data.length}: {msg}"
+    | .ok acc =>
+      if !killed && showResult res != retKind then
+        st.bad n s!"upload key={Bytes.toHexP o.key} imm={o.imm} len={o.data.length}: implementation returned {retKind}, model {showResult res}"
+      else
+        let pre := st.fs
+        let post := run pre acc
+        let newDirs := acc.filterMap fun e => match e with | .mkdir p => some p | _ => none
+        let st := { st with fs := post, known := st.known ++ newDirs.filter (fun p => !st.known.contains p) }
+        let branch := if killed then "upload-killed" else
+          s!"upload-{showResult res}-{if o.imm then "imm" else "plain"}-size{sizeClass o.data.length}-newdirs{newDirs.length}"
+        match comps with
+        | none => return st.good branch
+        | some c =>
+          let path := st.dir ++ c
+          let q := quiescentB pre st.known
+          let rep := crashCheck pre st.known acc path o.data (!killed && res == .ok)
+          let st := { st with crashStates := st.crashStates + rep.states }
+          match rep.bad, q with
+          | none, _ => return (st.good branch).good (if q then "crash-states-all-old-or-new" else "crash-states-ok-from-nonquiescent")
+          | some msg, true => st.bad n s!"upload key={Bytes.toHexP o.key}: crash state violates old-or-new from a quiescent pre-state: {msg}"
+          | some _, false =>
+            return (st.good branch).good (if rep.badFinal then "returned-ok-but-not-durable-after-kill" else "crash-mid-call-from-nonquiescent")
+  | "fetch" =>
+    let (tr, res, obj) := fetchTrace st.dir o.key st.fs
+    match matchTrace tr obs false with
+    | .error msg => st.bad o.line s!"fetch key={Bytes.toHexP o.key}: {msg}"
+    | .ok _ =>
+      if showResult res != retKind then
+        st.bad n s!"fetch key={Bytes.toHexP o.key}: implementation returned {retKind}, model {showResult res}"
+      else if res == .ok then
+        match ret with
+        | [_, cid] =>
+          if st.content cid == obj && obj.isSome then return st.good "fetch-ok"
+          else st.bad n s!"fetch key={Bytes.toHexP o.key}: implementation returned content {cid}, model has {(obj.map (·.length))} bytes"
+        | _ => st.bad n "fetch: ret ok without content id"
+      else return st.good s!"fetch-{showResult res}"
+  | "discard" =>
+    let (tr, res) := discardTrace st.dir o.key st.fs
+    match matchTrace tr obs false with
+    | .error msg => st.bad o.line s!"discard key={Bytes.toHexP o.key}: {msg}"
+    | .ok acc =>
+      let res := if acc.any (fun e => match e with | .rmdir _ false => true | _ => false) then Result.error else res
+      if showResult res != retKind then
+        st.bad n s!"discard key={Bytes.toHexP o.key}: implementation returned {retKind}, model {showResult res}"
+      else return { (st.good s!"discard-{showResult res}") with fs := run st.fs acc }
+  | k => st.bad n s!"unknown op kind {k}"
+
+def onLine (st : St) (n : Nat) (l : String) : IO St := do
+  let st := { st with t := { st.t with lines := st.t.lines + 1 } }
+  match Driver.words l with
+  | ["world", name] => return { (st.good "world") with fs := emptyWorld, dir := [], known := [[]], world := name, op := none }
+  | ["dir", p] =>
+    match parsePath p with
+    | some q => return { st with dir := q }
+    | none => st.bad n s!"bad dir {p}"
+  | ["prep", "mkdir", p] =>
+    match parsePath p with
+    | some q =>
+      let fs := mkdirAllDurable st.fs q
+      return { st with fs := fs, known := st.known ++ (prefixes q).filter (fun x => !st.known.contains x) }
+    | none => st.bad n s!"bad path {p}"
+  | ["prep", "file", p, cid] =>
+    match parsePath p, st.content cid with
+    | some q, some d =>
+      return { st with fs := fileDurable st.fs q d, known := st.known ++ (prefixes (parentOf q)).filter (fun x => !st.known.contains x) }
+    | _, _ => st.bad n s!"bad prep file {p} {cid}"
+  | ["def", id, "hex", h] => return { st with contents := (id, unhex h) :: st.contents }
+  | ["def", id, "take", base, k] =>
+    match st.content base, k.toNat? with
+    | some b, some k => return { st with contents := (id, b.take k) :: st.contents }
+    | _, _ => st.bad n s!"bad def {l.take 80}"
+  | ["def", id, "flip", base, k] =>
+    match st.content base, k.toNat? with
+    | some b, some k =>
+      return { st with contents := (id, b.take k ++ ((b.drop k).take 1).map (· ^^^ 0xFF) ++ b.drop (k + 1)) :: st.contents }
+    | _, _ => st.bad n s!"bad def {l.take 80}"
+  | ["def", id, "app", base, h] =>
+    match st.content base with
+    | some b => return { st with contents := (id, b ++ unhex h) :: st.contents }
+    | none => st.bad n s!"bad def {l.take 80}"
+  | ["op", "upload", key, cid, imm] =>
+    match st.content cid with
+    | some d => return { st with op := some { kind := "upload", key := unhex key, data := d, imm := imm == "1", line := n } }
+    | none => st.bad n s!"unknown content {cid}"
+  | ["op", kind, key] => return { st with op := some { kind := kind, key := unhex key, line := n } }
+  | "s" :: ev =>
+    match st.op with
+    | some o => return { st with op := some { o with obs := o.obs.push ev } }
+    | none => st.bad n "system call outside a call"
+  | "ret" :: ret =>
+    match st.op with
+    | some o => finishOp st n o ret
+    | none => st.bad n "ret outside a call"
+  | ["skip", _] => return st.good "op-not-run"
+  | ["endworld"] => return st.good "endworld"
+  | "conc" :: name :: rest =>
+    if rest.contains "ok=true" then return st.good "readers-writers-ok" else st.bad n s!"readers/writers run {name} failed: {l}"
+  | [] => return st
+  | _ => st.bad n s!"bad-line: {l.take 120}"
+
 def main : IO UInt32 := do
-  IO.println "MISMATCH 0 engine localfs has no driver yet"
+  let init : St := {}
+  let init ← match currentProgram with
+    | some P => pure { init with P := P, t := init.t.bump ("program-buf-" ++ "_".intercalate P.buf.tokens) }
+    | none => do
+      IO.println s!"MISMATCH 0 the buffer expression of compareFile {Generated.c13_compare_buf} is outside the model's vocabulary"
+      pure { init with t := { init.t with mismatches := 1 } }
+  let st ← Driver.foldLines init onLine
+  IO.println ({ st.t with branches := st.t.branches ++ [("crash-states-computed", st.crashStates)] }).summary
   return 0
 end Driver.Localfs
